@@ -1,1 +1,294 @@
-/-! Property theorems for C15 (only property-level statements and non-vacuity examples live here). -/
+import SpoxModel.Lemmas.ValueProp
+/-!
+# C15 - value propagation is fail-safe under backend faults
+
+All statements are about `VP.construct` (`Model/ValueProp.lean`): constructing one operator node -
+standard or inlined model - with the value-propagation backend as a *parameter* ranging over every
+`Backend` (an exception of any class, or any list of output names with any list of raw results:
+ill-typed arrays, `None`, scalars, lists, unknown / missing / duplicated names, truncated lists).
+`Variant.fixed` is the behaviour after the `fix:` commits 4a0f72b, 8cf8b4c, 5a207b8; the
+`..._counterexample` theorems show the same statements false for the pinned tree's behaviour.
+-/
+namespace C15
+open VP
+
+/-- The fault model of the property: whatever the evaluator raises is an `Exception`
+    (KeyboardInterrupt / SystemExit are not faults of the evaluator and are not swallowed). -/
+def Backend.raisesOnlyExceptions : Backend → Prop
+  | .raise e => e.isException = true
+  | .ret _ _ => True
+
+/-- `check` is sound, containers included: a value that passes conforms to the type. -/
+theorem check_sound (t : Ty) (p : Payload) (h : check Variant.fixed (.mk t p) = true) :
+    conforms t p :=
+  checkRec_sound t p (by simpa [check, Variant.fixed, PropValue.type, PropValue.value] using h)
+
+theorem runCatch_ok (b : Backend) (hb : Backend.raisesOnlyExceptions b) :
+    ∃ feed, runCatch b = .ok feed := by
+  cases b with
+  | raise e => exact ⟨[], by simp [runCatch, show e.isException = true from hb]⟩
+  | ret names vals => exact ⟨_, rfl⟩
+
+theorem propagateOnnx_total (sel : BackendSel) (ctx : NodeCtx) (b : Backend)
+    (hb : Backend.raisesOnlyExceptions b) :
+    ∃ vals, propagateOnnx Variant.fixed sel ctx b = .ok vals := by
+  obtain ⟨feed, hfeed⟩ := runCatch_ok b hb
+  by_cases h1 : (ctx.inputs.any fun i => i.type.isNone || !i.hasValue) = true
+  · exact ⟨[], by simp [propagateOnnx, h1]⟩
+  · by_cases h2 : ctx.hasSubgraph = true
+    · exact ⟨[], by simp [propagateOnnx, h1, h2]⟩
+    · cases hc : convertAll sel ctx feed with
+      | ok rs => exact ⟨keyed rs, by simp [propagateOnnx, h1, h2, hfeed, hc]⟩
+      | error e => exact ⟨[], by simp [propagateOnnx, h1, h2, hfeed, hc, Variant.fixed]⟩
+
+theorem propagateInline_total (sel : BackendSel) (ctx : NodeCtx) (g : List String) (b : Backend)
+    (hb : Backend.raisesOnlyExceptions b) :
+    ∃ vals, propagateInline Variant.fixed sel ctx g b = .ok vals := by
+  obtain ⟨feed, hfeed⟩ := runCatch_ok b hb
+  by_cases h1 : (ctx.inputs.any fun i => i.type.isNone || !i.hasValue) = true
+  · exact ⟨[], by simp [propagateInline, h1]⟩
+  · by_cases h2 : sel = .none
+    · exact ⟨[], by simp [propagateInline, h1, h2, Variant.fixed]⟩
+    · have h2' : (sel == BackendSel.none) = false := by simpa using h2
+      cases hc : convertInline sel feed (g.zip ctx.outputs) with
+      | ok rs => exact ⟨dictOf rs, by simp [propagateInline, h1, h2', hfeed, hc]⟩
+      | error e => exact ⟨[], by simp [propagateInline, h1, h2', hfeed, hc, Variant.fixed]⟩
+
+theorem propagate_total (sel : BackendSel) (k : Kind) (ctx : NodeCtx) (b : Backend)
+    (hb : Backend.raisesOnlyExceptions b) :
+    ∃ vals, propagate Variant.fixed sel ctx b k = .ok vals := by
+  cases k with
+  | standard =>
+    cases sel with
+    | none => exact ⟨[], rfl⟩
+    | reference => exact propagateOnnx_total _ ctx b hb
+    | onnxruntime => exact propagateOnnx_total _ ctx b hb
+  | inline g => exact propagateInline_total sel ctx g b hb
+
+/-- **construct_total.** For every node (standard or inline), every backend setting and *every*
+    backend behaviour within the fault model, constructing the operator does not raise. -/
+theorem construct_total (sel : BackendSel) (k : Kind) (ctx : NodeCtx) (b : Backend)
+    (hb : Backend.raisesOnlyExceptions b) :
+    ∃ outs, construct Variant.fixed sel k ctx b = .ok outs := by
+  obtain ⟨vals, hv⟩ := propagate_total sel k ctx b hb
+  exact ⟨merge Variant.fixed vals ctx.outputs, by simp [construct, hv]⟩
+
+/-- What `mergeOne` can do to an output Var. -/
+theorem mergeOne_value (vals : List (String × Payload)) (o : OutVar) (pv : PropValue)
+    (h : (mergeOne Variant.fixed vals o).1.value = some pv) :
+    o.value = some pv ∨
+      (o.value = none ∧ o.type = some pv.type ∧ check Variant.fixed pv = true ∧
+        ∃ p, dictGet vals o.key = some p ∧ pv = PropValue.new pv.type p) := by
+  unfold mergeOne at h
+  split at h
+  · rename_i t p ht hval hget
+    split at h
+    · rename_i hc
+      simp only [Option.some.injEq] at h
+      subst h
+      exact Or.inr ⟨hval, by simpa [PropValue.new, PropValue.type] using ht, hc, p, hget,
+        by simp [PropValue.new, PropValue.type]⟩
+    · exact Or.inl h
+  · exact Or.inl h
+
+theorem mergeOne_key_type (v : Variant) (vals : List (String × Payload)) (o : OutVar) :
+    (mergeOne v vals o).1.key = o.key ∧ (mergeOne v vals o).1.type = o.type := by
+  unfold mergeOne
+  split
+  · split <;> simp
+  · simp
+
+/-- **no_bad_value.** After a successful construction, every value found on an output Var either
+    was there before, or passed `check` against the Var's own type - hence conforms to it, at
+    every nesting level of Sequence / Optional values. -/
+theorem no_bad_value (sel : BackendSel) (k : Kind) (ctx : NodeCtx) (b : Backend)
+    (outs : List (OutVar × Bool)) (h : construct Variant.fixed sel k ctx b = .ok outs) :
+    ∀ ow ∈ outs, ∀ pv, ow.1.value = some pv →
+      (∃ o ∈ ctx.outputs, o.key = ow.1.key ∧ o.value = some pv) ∨
+      (ow.1.type = some pv.type ∧ check Variant.fixed pv = true ∧ conforms pv.type pv.value) := by
+  intro ow how pv hpv
+  unfold construct at h
+  split at h
+  · cases h
+  · rename_i vals _
+    simp only [Except.ok.injEq] at h
+    subst h
+    simp only [merge, List.mem_map] at how
+    obtain ⟨o, ho, rfl⟩ := how
+    rcases mergeOne_value vals o pv hpv with h1 | ⟨_, h2, h3, _⟩
+    · exact Or.inl ⟨o, ho, (mergeOne_key_type _ vals o).1.symm, h1⟩
+    · refine Or.inr ⟨by rw [(mergeOne_key_type _ vals o).2]; exact h2, h3, ?_⟩
+      cases pv with
+      | mk t p => exact check_sound t p h3
+
+/-- **types_unaffected** (node level). Whatever the backend does, in either variant, the output
+    Vars keep their keys and the types the type half of `Node.inference` gave them. -/
+theorem types_unaffected (v : Variant) (sel : BackendSel) (k : Kind) (ctx : NodeCtx) (b : Backend)
+    (outs : List (OutVar × Bool)) (h : construct v sel k ctx b = .ok outs) :
+    outs.map (fun ow => (ow.1.key, ow.1.type)) = ctx.outputs.map (fun o => (o.key, o.type)) := by
+  unfold construct at h
+  split at h
+  · cases h
+  · rename_i vals _
+    simp only [Except.ok.injEq] at h
+    subst h
+    simp only [merge, List.map_map]
+    apply List.map_congr_left
+    intro o _
+    simp [(mergeOne_key_type v vals o).1, (mergeOne_key_type v vals o).2]
+
+/-- **off_is_transparent** (node level). With the backend switched off the construction succeeds,
+    consults no backend (the result is the same for every `b`), issues no warning and attaches
+    nothing: the outputs are exactly as the type half left them. -/
+theorem off_is_transparent (k : Kind) (ctx : NodeCtx) (b : Backend)
+    (hfresh : ∀ o ∈ ctx.outputs, o.value = none) :
+    construct Variant.fixed .none k ctx b = .ok (ctx.outputs.map fun o => (o, false)) := by
+  have hp : propagate Variant.fixed .none ctx b k = .ok [] := by
+    cases k with
+    | standard => rfl
+    | inline g =>
+      simp only [propagate, propagateInline, Variant.fixed]
+      split <;> simp
+  simp only [construct, hp, merge]
+  congr 1
+  apply List.map_congr_left
+  intro o ho
+  simp [mergeOne, dictGet, hfresh o ho]
+
+/-- A failing backend is indistinguishable from no backend. -/
+theorem raise_is_off (sel : BackendSel) (k : Kind) (ctx : NodeCtx) (e : Exc)
+    (he : e.isException = true) (hfresh : ∀ o ∈ ctx.outputs, o.value = none) :
+    construct Variant.fixed sel k ctx (.raise e) = .ok (ctx.outputs.map fun o => (o, false)) := by
+  have hp : propagate Variant.fixed sel ctx (.raise e) k = .ok [] := by
+    cases k with
+    | standard =>
+      cases sel with
+      | none => rfl
+      | reference =>
+        simp only [propagate, propagateStd, propagateOnnx, runCatch, he, Variant.fixed]
+        split
+        · rfl
+        · split <;> rfl
+      | onnxruntime =>
+        simp only [propagate, propagateStd, propagateOnnx, runCatch, he, Variant.fixed]
+        split
+        · rfl
+        · split <;> rfl
+    | inline g =>
+      simp only [propagate, propagateInline, runCatch, he, Variant.fixed]
+      split
+      · rfl
+      · cases sel <;> simp [convertInline_nil, dictOf]
+  simp only [construct, hp, merge]
+  congr 1
+  apply List.map_congr_left
+  intro o ho
+  simp [mergeOne, dictGet, hfresh o ho]
+where
+  convertInline_nil : ∀ (sel : BackendSel) (zs : List (String × OutVar)),
+      convertInline sel [] zs = .ok []
+    | _, [] => rfl
+    | sel, (g, o) :: rest => by simp [convertInline, dictGet, convertInline_nil sel rest]
+
+/-- A fault never *creates* values downstream: a node with an untyped or valueless input (e.g.
+    because an upstream fault made spox drop a value) attaches nothing, whatever its own backend
+    call would return - so downstream Vars only ever lose values (hence type information inferred
+    from them), they never get different ones. This is the part of the downstream half of
+    `types_unaffected` that lives in spox; that ONNX shape inference is monotone in the set of
+    known constants is an assumption about the third-party engine (checked by the oracle). -/
+theorem valueless_input_propagates_nothing (sel : BackendSel) (k : Kind) (ctx : NodeCtx) (b : Backend)
+    (hbad : ∃ i ∈ ctx.inputs, i.type = none ∨ i.hasValue = false)
+    (hfresh : ∀ o ∈ ctx.outputs, o.value = none) :
+    construct Variant.fixed sel k ctx b = .ok (ctx.outputs.map fun o => (o, false)) := by
+  have hany : ctx.inputs.any (fun i => i.type.isNone || !i.hasValue) = true := by
+    obtain ⟨i, hi, h⟩ := hbad
+    simp only [List.any_eq_true, Bool.or_eq_true, Option.isNone_iff_eq_none, Bool.not_eq_eq_eq_not,
+      Bool.not_true]
+    exact ⟨i, hi, h⟩
+  have hp : propagate Variant.fixed sel ctx b k = .ok [] := by
+    cases k with
+    | standard =>
+      cases sel with
+      | none => rfl
+      | reference => simp [propagate, propagateStd, propagateOnnx, hany]
+      | onnxruntime => simp [propagate, propagateStd, propagateOnnx, hany]
+    | inline g => simp [propagate, propagateInline, hany]
+  simp only [construct, hp, merge]
+  congr 1
+  apply List.map_congr_left
+  intro o ho
+  simp [mergeOne, dictGet, hfresh o ho]
+
+/-! ### non-vacuity: the construction does attach good values and does drop bad ones -/
+
+def ctx1 (t : Ty) : NodeCtx :=
+  { inputs := [⟨"input", some "output", some (.tensor .i64 (some [.const 2])), true⟩],
+    outputs := [⟨"output", some t, none⟩], hasSubgraph := false }
+
+def tI64x2 : Ty := .tensor .i64 (some [.const 2])
+
+/-- a well-typed result is attached ... -/
+example : (construct Variant.fixed .reference .standard (ctx1 tI64x2)
+      (.ret ["output"] [.arr .i64 [2] 3])).toOption.map (·.map fun ow => ow.1.value.isSome)
+    = some [true] := by decide
+
+/-- ... an ill-typed one is dropped with a warning ... -/
+example : (construct Variant.fixed .reference .standard (ctx1 tI64x2)
+      (.ret ["output"] [.arr .f64 [2] 3])).toOption.map (·.map fun ow => (ow.1.value.isSome, ow.2))
+    = some [(false, true)] := by decide
+
+/-- ... and an alias dtype is normalised and kept. -/
+example : (construct Variant.fixed .onnxruntime .standard (ctx1 tI64x2)
+      (.ret ["output"] [.arr .longlong [2] 3])).toOption.map (·.map fun ow => ow.1.value.isSome)
+    = some [true] := by decide
+
+/-! ### the pinned tree violates the same statements -/
+
+/-- The exception that escaped the constructor, if any. -/
+def raised {α} : Except Exc α → Option Exc
+  | .error e => some e
+  | .ok _ => none
+
+/-- Pinned: a 2-element list for a tensor-typed output makes the constructor raise TypeError;
+    an unknown output name makes it raise KeyError; an inhomogeneous tuple, ValueError. -/
+theorem construct_total_counterexample :
+    raised (construct Variant.pinned .reference .standard (ctx1 tI64x2)
+        (.ret ["output"] [.list [.arr .i64 [] 1, .arr .i64 [] 2]])) = some .typeError ∧
+    raised (construct Variant.pinned .reference .standard (ctx1 tI64x2)
+        (.ret ["zzz"] [.arr .i64 [2] 1])) = some .keyError ∧
+    raised (construct Variant.pinned .reference .standard (ctx1 tI64x2)
+        (.ret ["output"] [.ragged])) = some .valueError ∧
+    raised (construct Variant.pinned .onnxruntime .standard (ctx1 tI64x2)
+        (.ret ["output"] [.scalar .f64 3])) = some .typeError := by decide
+
+def seqBad : RefVal := .list [.arr .f64 [3] 3, .arr .str [1] 5]
+
+/-- Pinned: `[float64[3], str[1]]` is attached to a `Sequence(Tensor(int64, (2,)))` Var and
+    `float64[1]` to an `Optional(Tensor(int64, (2,)))` Var, and an object array holding an
+    arbitrary object to a `Tensor(str)` Var - values that do not conform. -/
+theorem no_bad_value_counterexample :
+    (∃ pv, (construct Variant.pinned .reference .standard (ctx1 (.seq tI64x2))
+        (.ret ["output"] [seqBad])).toOption.map (·.map fun ow => ow.1.value) = some [some pv] ∧
+      ¬ conforms pv.type pv.value) ∧
+    (∃ pv, (construct Variant.pinned .reference .standard (ctx1 (.opt tI64x2))
+        (.ret ["output"] [.arr .f64 [1] 3])).toOption.map (·.map fun ow => ow.1.value) = some [some pv] ∧
+      ¬ conforms pv.type pv.value) ∧
+    (∃ pv, (construct Variant.pinned .reference .standard (ctx1 (.tensor .str none))
+        (.ret ["output"] [.opaque 3])).toOption.map (·.map fun ow => ow.1.value) = some [some pv] ∧
+      ¬ conforms pv.type pv.value) := by
+  refine ⟨⟨_, rfl, ?_⟩, ⟨_, rfl, ?_⟩, ⟨_, rfl, ?_⟩⟩
+  · simp [PropValue.type, PropValue.value, PropValue.new, conforms, tI64x2, dtConf, DT.norm,
+      Payload.normalise, DT.isNumber]
+  · simp [PropValue.type, PropValue.value, PropValue.new, conforms, tI64x2, dtConf, DT.norm,
+      Payload.normalise, DT.isNumber]
+  · simp [PropValue.type, PropValue.value, PropValue.new, conforms, dtConf, DT.norm,
+      Payload.normalise, DT.isNumber]
+
+/-- Pinned: with propagation switched off, inlining a model fed with a constant raises. -/
+theorem off_is_transparent_counterexample :
+    raised (construct Variant.pinned .none (.inline ["y"])
+      { inputs := [⟨"inputs_0", some "output", some tI64x2, true⟩],
+        outputs := [⟨"outputs_0", some tI64x2, none⟩], hasSubgraph := false }
+      (.ret ["y"] [.arr .i64 [2] 1])) = some .runtimeError := by decide
+
+end C15
